@@ -50,6 +50,9 @@ def sub_kernel(case, rec=None):
     nd = float(case["nodata"])
     yy = y.copy()
     yy[~valid] = nd
+    for i, d in case.get("near", []):
+        # a VALID cell whose value is close to, but not equal to, the nodata value
+        yy[i] = np.nextafter(nd, np.inf if d > 0 else -np.inf) if abs(d) == 1 else nd + d
     lam = 0.0 if case.get("lam0") else 10.0 ** case["loglam"]
     p = case.get("p")
     out, _ = smooth.run_variant("pgu" if p is not None else "gu", yy, nd, {"lam": lam, "p": p})
@@ -66,6 +69,8 @@ def sub_accessor(case, rec=None):
     arr = np.array(pix, dtype="float64")
     vm = np.array(vmask, dtype=bool)
     arr[~vm] = nd
+    for k, t, d in case.get("near", []):
+        arr[k, t] = nd + d  # valid float cell next to the nodata value (d is exact in float32 at this magnitude)
     cube = arr.reshape(ny, nx, nt).astype(case["dtype"])
     da = xr.DataArray(cube, dims=("y", "x", "time"),
                       coords={"time": pd.date_range("2010-01-01", periods=nt, freq="10D"), "y": np.arange(ny), "x": np.arange(nx) * 2},
@@ -116,6 +121,11 @@ def kernel_case(draw, nmax):
         case["loglam"] = draw(gens.loglam(-3.0, 5.0))
     if draw(st.booleans()):
         case["p"] = draw(gens.pvals)
+    vi = [i for i in range(n) if g["valid"][i]]
+    if vi and draw(st.integers(0, 5)) == 0:
+        # float rasters: valid cells a hair away from the nodata value are ordinary observations (+-1 stands for one ulp)
+        idx = draw(st.lists(st.sampled_from(vi), min_size=1, max_size=min(3, len(vi)), unique=True))
+        case["near"] = [[i, draw(st.sampled_from([1, -1, 1e-9, -1e-9, 0.004, -0.01, 0.0625, 0.25, -0.5]))] for i in idx]
     return case
 
 
@@ -143,6 +153,10 @@ def accessor_case(draw):
         case["sg_transposed"] = draw(st.booleans())
     if draw(st.booleans()):
         case["p"] = draw(gens.pvals)
+    cells = [(k, t) for k in range(ny * nx) for t in range(nt) if val[k][t]]
+    if dtype != "int16" and cells and draw(st.integers(0, 3)) == 0:
+        pick = draw(st.lists(st.sampled_from(cells), min_size=1, max_size=min(3, len(cells)), unique=True))
+        case["near"] = [[k, t, draw(st.sampled_from([0.0625, -0.0625, 0.25, -0.5, 0.015625]))] for k, t in pick]
     return case
 
 
@@ -160,7 +174,7 @@ def run(ctx):
             rec.discard("kernel", why)
         rec.case("kernel", case, nontrivial=(not _trivial_kernel(case)) and why is None,
                  cls=["pgu" if "p" in case else "gu", "gap:" + case["gcls"], "y:" + case["ycls"],
-                      "lambda=0" if case.get("lam0") else "lambda>0"])
+                      "lambda=0" if case.get("lam0") else "lambda>0"] + (["near_nodata_valid_cell"] if case.get("near") else []))
 
     ctx.given("kernel", kernel_case(ctx.n(200, 400)), ctx.n(1200, 15000), fn=f_kernel)
 
@@ -170,6 +184,6 @@ def run(ctx):
             rec.discard("accessor", why)
         rec.case("accessor", case, nontrivial=True,
                  cls=["mode:" + case["mode"], "dtype:" + case["dtype"], "dims:" + "/".join(case["dims"]),
-                      "p" if "p" in case else "nop"] + (["sg:-inf"] if case["mode"] == "sg" and "-Infinity" in [str(v) for v in case["sg"]] else []))
+                      "p" if "p" in case else "nop"] + (["near_nodata_valid_cell"] if case.get("near") else []) + (["sg:-inf"] if case["mode"] == "sg" and "-Infinity" in [str(v) for v in case["sg"]] else []))
 
     ctx.given("accessor", accessor_case(), ctx.n(250, 3000), fn=f_acc)
